@@ -72,8 +72,8 @@ def _measure_job(args):
                 cases.append(("layout_render", [FLAGS, L.env_enc(cwidth), L.enc_opts({}), val, tree], impl, "at-" + which, None))
             if val >= sm:
                 dom = L.domain(spec, {}, console)
-                note("render-at-%s:%s" % (which, dom))
-                if dom == "out":
+                note("render-at-%s:%s" % (which, dom.split(":")[0]))
+                if dom == "out" or dom.startswith("floor:"):
                     continue
                 if out.startswith("err:"):
                     checks.append((False, "render at measured " + which, (spec, cwidth, w, val), f"rendering raised {out[4:]}", None))
@@ -228,7 +228,9 @@ MANIFEST = {
     "text": "Lean 4 theorems (Props/C09.lean) about the composition model Model/Layout.lean (shared with C01): `measurement_get_normal` "
     "(whatever __rich_measure__ returns, Measurement.get answers 0 <= min <= max <= max(available,0)), `measure_normal` (the same for "
     "`measure` of every renderable tree incl. objects without __rich_measure__ and __rich__ casts, every Python-int width), "
-    "`group_measure_is_max` (a fitted group reports the largest minimum / maximum of its members), "
+    "`group_measure_is_max` (a fitted group reports the largest minimum / maximum of its members), `text_render_at_measure_fits` / "
+    "`tree_render_at_measure_fits` (no structural-minimum proviso for text and trees), `panel_measure_below_borders_is_only_the_clamp` "
+    "(witness that framed renderables need the proviso), "
     "`render_at_max_fits` / `render_at_min_fits` (rendering at the reported maximum / minimum produces no line wider than that value when "
     "it is at or above the structural minimum: corollaries of C01.render_fits, which holds at every width), `text_measure_spec` (minimum = "
     "widest whitespace-separated word, maximum = widest line, attained, min <= max), `text_at_max_not_wrapped` + `divide_line_nil_of_fits` "
@@ -242,6 +244,6 @@ MANIFEST = {
     "measurement is unsound.  `text_at_max_not_wrapped` assumes `\\n` is the only line-break character of the text (str.splitlines, used by "
     "the measurement, also breaks at FS/GS/RS/NEL/LS/PS; wrap does not).  Table.__rich_measure__ is modelled here (`tableRichMeasure` of Model/Layout.lean; C07's Model/Table.lean has gained its own "
     "`Table.richMeasure` since, compared per table by ./check C07).  Quirk modelled: an object whose __rich__ returns a str is "
-    "measured (0, available), because Measurement.get converts a str before it follows __rich__.  Outside the model: styles, panel/rule titles wider than console.width.  Trusted base as C01.",
+    "measured (0, available), because Measurement.get converts a str before it follows __rich__.  Documented non-claims (outside C09's quantifier): Syntax.__rich_measure__ is one cell short with line numbers + code_width (C17), Pretty.__rich_measure__ is sound since fix db5535b (C16).  Outside the model: styles.  Trusted base as C01.",
     "design_ref": "DESIGN.md section 7, C01/C07/C08/C09",
 }
